@@ -13,9 +13,10 @@ C11 (round 5) — "the note array before and after is identical", for the execut
 import PartituraModel.Props.C11Rows
 import PartituraModel.Props.C11Tuplets
 import PartituraModel.Proofs.C11San
+import PartituraModel.Proofs.C11Within
 
 namespace C11
-open Model Model.Dur Model.Meas Model.San Model.Tup Gen C11Rows C11Sound C11Contig C11San
+open Model Model.Dur Model.Meas Model.San Model.Tup Gen C11Rows C11Sound C11Contig C11San C11Within
 
 /-- **sounding_is_walk**: for every list and every key whose chain `duration_tied` / `end_tied` can walk, the
     fuel-bounded recursion of the model (fuel = length of the list) returns exactly the walked end and duration — a
@@ -53,6 +54,37 @@ theorem tie_notes_links_kept (p : PartM) (ns : List Note) (hkeys : KeysOK ns) (h
       (tieStage1_links adjP (fun _ => rfl) p.qd _ ns hkeys hlinks h1 h2)
   · intro h1 h2
     exact (tieStage1_links sameP (fun _ => rfl) p.qd _ ns hkeys hlinks h1 h2).2
+
+/-- **tie_notes_within_measures**: "afterwards every pitched note lies within one measure" for the whole list — with
+    the measures in time order (as `iter_all(Measure)` yields them) no measure starts strictly inside any note after
+    `tie_notes`, for every part and every note list with distinct keys -/
+theorem tie_notes_within_measures (p : PartM) (ns : List Note) (hkeys : KeysOK ns) (hlinks : LinksOK ns)
+    (hs : (p.measures.map (·.start)).Pairwise (· ≤ ·)) :
+    ∀ n ∈ tieNotes p ns, ∀ m ∈ p.measures, ¬ (n.start < m.start ∧ m.start < n.stop) := by
+  unfold tieNotes
+  rw [stage2_dead]
+  obtain ⟨_, hk', _⟩ := tieStage1_rows p.qd (p.measures.map (·.start)) ns hkeys hlinks
+  intro n hn m hm
+  have hl := lk_self _ hk' n hn
+  exact tieStage1_within p.qd _ hs ns n.key n hl m.start (List.mem_map.mpr ⟨m, hm, rfl⟩)
+
+/-- **tie_notes_symdur**: "every symbolic duration the library assigns evaluates to the note's numeric duration under the
+    divisions in force" for the whole list — after `tie_notes` the note found under a key is the entered note with its
+    extent and stored value untouched, or a piece whose stored value is the estimate for its own length under the
+    divisions at its start; and such a value, when it is one notated value, lasts exactly the piece -/
+theorem tie_notes_symdur (p : PartM) (ns : List Note) (x : Nat) (n' : Note) (h : C11Walk.lk (tieNotes p ns) x = some n') :
+    (∃ n, C11Walk.lk ns x = some n ∧ n'.sym = n.sym ∧ n'.start = n.start ∧ n'.stop = n.stop) ∨
+    (n'.sym = some (estimateI (n'.stop - n'.start) (quarterAt p.qd n'.start)) ∧
+      ∀ sd, n'.sym = some (.single sd) →
+        symbolicToNumeric sd (quarterAt p.qd n'.start) = some ((n'.stop - n'.start : Nat) : Rat)) := by
+  unfold tieNotes at h
+  rw [stage2_dead] at h
+  rcases tieStage1_sym p.qd (p.measures.map (·.start)) ns x n' h with h1 | h2
+  · exact Or.inl h1
+  · refine Or.inr ⟨h2, ?_⟩
+    intro sd hsd
+    rw [h2] at hsd
+    exact symdur_assigned _ _ sd (Option.some.inj hsd)
 
 /-- **tie_then_sanitize**: the tie check of `sanitize_part` finds nothing to remove in the OUTPUT of `tie_notes`,
     whatever the tolerance — the adjacency it needs is proved from `tie_notes` (`tie_notes_links_kept`) -/
@@ -132,6 +164,12 @@ example : Walkable [exA, exB] := by
 def exSound : Nat × Nat × String × Option Int × Option String := (0, 8, "C_0_4", some 1, some "n0")
 example : sounding [exA, exB] = [exSound] ∧ sounding (tieNotes exTiePart [exA, exB]) = [exSound] :=
   ⟨by decide +kernel, by decide +kernel⟩
+
+example : ((exTiePart.measures.map (·.start)).Pairwise (· ≤ ·)) := by decide
+-- the piece [4, 6) of the witness carries the estimate for 2 divisions at 1 per quarter: a half note
+example : C11Walk.lk (tieNotes exTiePart [exA, exB]) 2 =
+    some { exA with key := 2, id := some "n0a", start := 4, stop := 6, sym := some (.single ("half", 0, none, none)),
+                    tiePrev := some 0, tieNext := some 1 } := by decide +kernel
 
 -- the seeded change of round 5 in the model's terms: the same chain with the second note written `alter=None`
 -- is still one row of the note array, and the tie check (tolerance 0) leaves it tied
